@@ -730,6 +730,11 @@ func specHasProp(sp *FuncSpec, P string) bool {
 	if sp.NonBlock != nil && sp.NonBlock.hasProp(P) {
 		return true
 	}
+	for _, c := range sp.Escape {
+		if c.hasProp(P) {
+			return true
+		}
+	}
 	return false
 }
 
@@ -1425,6 +1430,11 @@ func (ex *Exec) closeRun(keys []string) []string {
 					if st, ok := in.(*ssa.Store); ok && len(fnOrigins) > 0 {
 						if r, p, ok := staticRoot(st.Addr); ok && fnOrigins["H."+r+"."+strings.TrimSuffix(p, ".")] {
 							hit = true
+						}
+					}
+					if ci, ok := in.(ssa.CallInstruction); ok {
+						if b, ok := ci.Common().Value.(*ssa.Builtin); ok && b.Name() == "close" {
+							hit = true // every close site proves its operand is not a never-closed channel
 						}
 					}
 					switch x := in.(type) {
